@@ -633,6 +633,14 @@ def run(fx, rep, tier):
     r3_counters(facts, rep)
     r4_reader(facts, rep, tier)
     r5_lexer(facts, rep)
+    rep.rule("C07-R6", "a percent literal is its own decimal text divided by 100 (the literal's denominator is not dropped): "
+                       "shared with C01-R5")
+    from . import c01
+    sub = type(rep)(rep.prop, rep.tier)
+    c01.r5_percent(facts, sub)
+    for o in sub.obls:
+        o["rule"] = "C07-R6"
+        rep.obls.append(o)
     if "rel" in fx:
         sub = type(rep)(rep.prop, rep.tier)
         r4_reader(fx["rel"], sub, "quick")
